@@ -17,18 +17,43 @@ HeaderMut == {"parent_unknown", "parent_grand", "miner_other", "version_root", "
               "time_future", "time_future_rebuilt", "extra_long", "extra_other"}
 \* corruptions that leave the header hash alone
 BodyMut == {"none", "sig_reencoded", "sig_garbage", "txs_drop", "txs_dup", "txs_swap", "logs_drop", "confirm_garbage"}
-Mut == HeaderMut \cup BodyMut
+\* ---- family "tx": T re-executed by the real assembler with a THIRD transaction Z of some class, signed by the right deputy
+\* (every root and gas figure is consistent; only Z itself may be ill-formed, expired or a replay).  bt = the block's time,
+\* L = the maximum transaction lifetime; block A1 (an ancestor of T in scenarios 2 and 3) carries a transfer X.
+ZValid == {"z_ok",                \* one more ordinary transfer
+           "z_exp_now",           \* expires exactly at bt
+           "z_exp_max",           \* expires exactly at bt + L
+           "z_box_ok",            \* a box of two transfers
+           "z_box_sub_exp_max"}   \* a box expiring soon whose sub-transaction expires exactly at bt + L
+ZForm == {"z_expired",            \* expired one second before bt
+          "z_too_far",            \* expires at bt + L + 1
+          "z_chain",              \* signed for another chain id
+          "z_toname_long", "z_toname_chars", "z_message_long",
+          "z_box_sub_expired",    \* box valid, its sub-transaction expired before bt
+          "z_box_sub_too_far",    \* box expires late but within bt + L, its sub-transaction expires far beyond bt + L
+          "z_box_sub_chain",      \* sub-transaction signed for another chain id
+          "z_box_in_box"}         \* a box inside a box
+ZReplay == {"z_replay_anc",         \* Z = X, already executed in ancestor A1 (a replay in scenarios 2 and 3 only)
+            "z_box_sub_replay_anc", \* X again, as a sub-transaction of a box
+            "z_box_sub_replay_T"}   \* T's own first transaction again, as a sub-transaction of a box in the same block
+ZOpt == {"z_box_sub_before_box"}  \* sub-transaction unexpired at bt but expiring before its box: no condition of the property
+ZMut == ZValid \cup ZForm \cup ZReplay \cup ZOpt
+Mut == HeaderMut \cup BodyMut \cup ZMut
 Scenario == 1..3      \* 1: T on genesis; 2: T on the head (height 3, block 1 stable); 3: T forks off below the head
-VARIABLES scen, chain     \* chain: hash ids of the offered blocks that were added
-vars == <<scen, chain>>
+Family == {"hdr", "tx"}
+VARIABLES scen, fam, chain     \* chain: hash ids of the offered blocks that were added
+vars == <<scen, fam, chain>>
 SignerBroken(m, r) ==
   CASE m = "sig_garbage" -> TRUE
     [] r = "outsider" -> TRUE
     [] r = "other" -> TRUE          \* the other deputy is not in turn at T's time and T does not name it as miner
-    [] r = "none" -> m \in HeaderMut  \* the original signature only fits the original header
+    [] r = "none" -> m \in HeaderMut \cup ZMut  \* the original signature only fits the original header
     [] r = "right" -> m \in {"miner_other", "time_next_slot"}
 Breaks(m, r) ==
   (IF SignerBroken(m, r) THEN {"signer"} ELSE {})
+  \cup (IF m \in ZForm THEN {"txform"} ELSE {})
+  \cup (IF m \in {"z_box_sub_replay_anc", "z_replay_anc"} /\ scen \in {2, 3} THEN {"replay"} ELSE {})
+  \cup (IF m = "z_box_sub_replay_T" THEN {"replay"} ELSE {})
   \cup (CASE m = "parent_unknown" -> {"parent"}
           [] m \in {"parent_grand", "height_plus", "height_minus", "height_plus_rebuilt", "height_minus_rebuilt"} -> {"height"}
           [] m \in {"time_before_parent", "time_future", "time_future_rebuilt"} -> {"time"}
@@ -37,14 +62,18 @@ Breaks(m, r) ==
           [] m \in {"version_root", "log_root", "gas_used"} -> {"reexec"}
           [] OTHER -> {})
 Valid(m, r) == Breaks(m, r) = {}
-HashOf(m) == IF m \in HeaderMut THEN m ELSE "T"      \* re-signing never changes the hash
-Init == scen \in Scenario /\ chain = {}
-Offer(m, r) == /\ chain' = IF Valid(m, r) THEN chain \cup {HashOf(m)} ELSE chain
-               /\ UNCHANGED scen
+HashOf(m) == IF m \in HeaderMut \cup ZMut THEN m ELSE "T"      \* re-signing never changes the hash
+Init == scen \in Scenario /\ fam \in Family /\ chain = {}
+MutOf(f) == IF f = "hdr" THEN HeaderMut \cup BodyMut ELSE ZMut \cup {"none"}
+ResignOf(f) == IF f = "hdr" THEN Resign ELSE {"right", "outsider"}
+Offer(m, r) == /\ m \in MutOf(fam) /\ r \in ResignOf(fam)
+               /\ chain' = IF Valid(m, r) THEN chain \cup {HashOf(m)} ELSE chain
+               /\ UNCHANGED <<scen, fam>>
 Next == \E m \in Mut, r \in Resign : Offer(m, r)
 Spec == Init /\ [][Next]_vars
 Accepts(m, r) == Valid(m, r) /\ HashOf(m) \notin chain
 \* only valid blocks ever enter; the miner-chosen fields (gas limit, extra data, the second inside the slot) are free
-OnlyValid == chain \subseteq {"T", "gas_limit", "time_in_slot", "extra_other"}
+OnlyValid == chain \subseteq {"T", "gas_limit", "time_in_slot", "extra_other"} \cup ZValid \cup ZOpt
+                              \cup (IF scen = 1 THEN {"z_replay_anc", "z_box_sub_replay_anc"} ELSE {})
 RefusalIsNoop == [][\A m \in Mut, r \in Resign : (Offer(m, r) /\ ~Accepts(m, r)) => UNCHANGED vars]_vars
 ====
